@@ -249,8 +249,8 @@ def nt_output_rules(repo: Repo, rep: Report) -> None:
     # ------------------------------------------------------------------ (a)
     R = "C05.a-nt-literal-escapes"
     rep.rule(R,
-             "N-Triples / N-Quads writers: wherever the serializer modules know a term to be a Literal (isinstance test), its text comes from a function every return of "
-             "which carries the lexical form escaped and put between double quotes; every such escape (a str.replace chain, or one str.translate with a constant table) "
+             "N-Triples / N-Quads writers: wherever the serializer modules know a term to be a Literal (an isinstance test that holds there - as the test of an if / conditional expression / guard clause, or through a flag variable bound once to it), its text comes from a function every return of "
+             "which carries the lexical form escaped and put between double quotes; every such escape (a str.replace chain, or one str.translate with a table that denotes a constant mapping, however the table is spelled) "
              "covers \", \\, LF and CR with ECHAR escapes, and a chain doubles the backslash first; NTSerializer.serialize and NQuadsSerializer.serialize reach such a place", floor=7)
     nt, nq = repo.mod(NT_MODULE), repo.mod(NQ_MODULE)
     lw = _LiteralWriting(repo, (nt, nq))
@@ -552,6 +552,8 @@ def xml_escape_rules(repo: Repo, rep: Report) -> None:
                         rep.ob("C05.b-xml-escape-discipline", mod, q, norm(c)[:90], why is not None,
                                why if why else "raw write of %s: not sanitised and not table-listed" % norm(a), node=c)
 
+
+def xmlns_rule(repo: Repo, rep: Report) -> None:
     xmlns_agreement(repo, rep, "C05.b2-xmlns-declared-as-used")
 
 
@@ -678,29 +680,53 @@ def run(repo: Repo, rep: Report) -> None:
     rep.extra["explanation"] = EXPLANATION
     layer(rep, nt_output_rules, repo)
     layer(rep, xml_escape_rules, repo)
+    layer(rep, xmlns_rule, repo)  # a layer of its own: its anchors (found by role) are not those of the escape discipline
     layer(rep, json_rules, repo)
     layer(rep, iri_resolution_rule, repo)
 
 
 def xmlns_agreement(repo: Repo, rep: Report, RULE: str) -> None:
-    """every prefix used in an element name is declared: the function that collects the xmlns declarations splits
-    IRIs with the same (strict) qname computation as the functions that write element names"""
+    """every prefix used in an element name is declared: the code that collects the xmlns declarations splits
+    IRIs with the same (strict) qname computation as the functions that write element names.
+
+    The two sides are found by what they do, from the public methods of the class: the DECLARING side is the code that computes what
+    XMLSerializer.serialize writes into its xmlns declarations (the writes whose template text contains `xmlns`: the values interpolated there,
+    followed through the loops they are drawn from and the locals they are bound to, to the methods of the class they are the results of - whatever those
+    private methods are called; qname computations written out in serialize itself count as well); the NAMING side is XMLSerializer.predicate."""
+    from vlib import h_c05 as H
+
+    QNAME_FUNCS = ("compute_qname", "compute_qname_strict", "qname", "qname_strict")
     rep.rule(RULE,
-             "rdfxml.XMLSerializer: the xmlns declarations (__bindings) and the element names (predicate) are computed with qname functions "
-             "of the same strictness (compute_qname_strict / qname_strict); otherwise an element can use a generated prefix that was never declared", floor=2)
+             "rdfxml.XMLSerializer: the xmlns declarations (the code whose results serialize() writes as xmlns attributes) and the element names (predicate) are computed "
+             "with qname functions of the same strictness (compute_qname_strict / qname_strict); otherwise an element can use a generated prefix that was never declared", floor=2)
     mod = repo.mod("rdflib.plugins.serializers.rdfxml")
-    strict = {}
-    for q in ("XMLSerializer.__bindings", "XMLSerializer.predicate"):
-        f = mod.func(q)
-        calls = [norm(c.func).rsplit(".", 1)[-1] for c in ast.walk(f) if isinstance(c, ast.Call) and isinstance(c.func, ast.Attribute)
-                 and c.func.attr in ("compute_qname", "compute_qname_strict", "qname", "qname_strict")]
+    cls = "XMLSerializer"
+    ser = mod.func(cls + ".serialize")
+    methods = mod.methods(cls)
+
+    def qname_calls(fs) -> list:
+        return [norm(c.func).rsplit(".", 1)[-1] for f_ in fs for c in ast.walk(f_) if isinstance(c, ast.Call) and isinstance(c.func, ast.Attribute) and c.func.attr in QNAME_FUNCS]
+
+    declarers = H.producers_of_written_text(mod, ser, methods, lambda text: "xmlns" in text)
+    if declarers is None:
+        raise AnalysisError("anchor vanished: %s:%s.serialize writes no xmlns declaration (no write whose template contains `xmlns`)" % (mod.rel, cls))
+    sides = []
+    decl_fns = [methods[m] for m in declarers]
+    if qname_calls([ser]) or not decl_fns:
+        decl_fns = [ser] + decl_fns
+    sides.append(("%s.%s" % (cls, declarers[0]) if declarers and decl_fns[0] is not ser else cls + ".serialize", decl_fns))
+    sides.append((cls + ".predicate", [mod.func(cls + ".predicate")]))
+    strict = []
+    for q, fs in sides:
+        calls = qname_calls(fs)
         if not calls:
             raise AnalysisError("%s: no qname computation found" % q)
-        strict[q] = {c.endswith("_strict") for c in calls}
-        rep.ob(RULE, mod, q, "uses %s" % sorted(set(calls)), len(strict[q]) == 1, "" if len(strict[q]) == 1 else "%s mixes strict and non-strict qname computation" % q, node=f)
-    ok = strict["XMLSerializer.__bindings"] == strict["XMLSerializer.predicate"] == {True}
-    rep.ob(RULE, mod, "XMLSerializer", "declarations and element names both use the strict split", ok,
-           "every used prefix is declared" if ok else "xmlns declarations and element names are computed with different qname functions: for a predicate whose local part is not an NCName the element uses a prefix that is never declared (unbound prefix, not namespace-well-formed)", node=mod.func("XMLSerializer.predicate"))
+        strict.append({c.endswith("_strict") for c in calls})
+        rep.analysed(*["%s:%s" % (mod.rel, mod.qual_of(f_)) for f_ in fs])
+        rep.ob(RULE, mod, q, "uses %s" % sorted(set(calls)), len(strict[-1]) == 1, "" if len(strict[-1]) == 1 else "%s mixes strict and non-strict qname computation" % q, node=fs[0])
+    ok = strict[0] == strict[1] == {True}
+    rep.ob(RULE, mod, cls, "declarations and element names both use the strict split", ok,
+           "every used prefix is declared" if ok else "xmlns declarations and element names are computed with different qname functions: for a predicate whose local part is not an NCName the element uses a prefix that is never declared (unbound prefix, not namespace-well-formed)", node=mod.func(cls + ".predicate"))
 
 
 # where IRI references read from a document are resolved against the base: (module, function) per syntax family
